@@ -264,6 +264,8 @@ class Engine:
         self.work = []
         self.path_state = {}
         self.format_hook = None
+        self.script = None  # real mode: recorded branch decisions to follow
+        self.script_pos = 0
 
     # ---- per path state ------------------------------------------------------
     def _reset_path(self):
@@ -306,6 +308,8 @@ class Engine:
         return self.branch(self.fresh_bool(name))
 
     def assume(self, zexpr):
+        if self.mode == "real":
+            return  # replays take their truth values from a model that satisfied the assumptions
         self.s.add(zexpr)
         self.model = None
 
@@ -321,7 +325,19 @@ class Engine:
 
     def branch(self, cond):
         if self.mode == "real":
-            raise SymLeak("symbolic branch in real mode")
+            # replay of a recorded decision sequence (abstract-domain harnesses)
+            if self.script is None:
+                raise SymLeak("symbolic branch in real mode")
+            cond = z3.simplify(cond)
+            if z3.is_true(cond):
+                return True
+            if z3.is_false(cond):
+                return False
+            if self.script_pos >= len(self.script):
+                raise SymLeak("replay script exhausted")
+            d = self.script[self.script_pos]
+            self.script_pos += 1
+            return bool(d)
         cond = z3.simplify(cond)
         if z3.is_true(cond):
             return True
